@@ -21,7 +21,7 @@ TIME = {'quick': 110, 'thorough': 1500}
 
 @st.composite
 def cases(draw, tier='quick'):
-    dom = draw(gen.domains(1, 5, 1, 4, cap=1024))
+    dom = draw(gen.domains(1, 5 if tier == 'quick' else 7, 1, 4, cap=1024 if tier == 'quick' else 4096))
     attrs = dom['attrs']
     cliques = draw(gen.clique_sets(attrs, max_cliques=5, max_clique_size=3))
     witness = [draw(st.integers(0, s - 1)) for s in dom['shape']]
